@@ -11,7 +11,7 @@ const SPEC: Spec = Spec {
     ],
     bounds_quick: "P1 moduli Dense(S8,2)+40 three-digit x ~35 bases per modulus x 25 exponents (<= 3 digits); P2 BigInt sign pairs on every 2nd modulus x 20 bases x 25 exponents; P3 panic clauses; I1 all (b,m) in [-200,200]^2; I2 Dense(S8,3)xDense(S8,2) x 4 sign pairs; I3 zero modulus",
     bounds_thorough: "P1 moduli as quick + all 3-digit Dense(S8,3) + 72 patterned 4/5/8-digit moduli (odd and even) x ~35 bases x 25 exponents; P2 all moduli x 40 bases x 25 exponents x 4 sign pairs; P3; I1 [-1000,1000]^2; I2 Dense(S8,4)xDense(S8,2) x 4 sign pairs; I3",
-    hang_secs: 300,
+    hang_secs: 120,
     probes: Some(probes),
     max_workers: 16,
 };
